@@ -306,4 +306,11 @@ theorem tryFromHex_eq (n : Nat) (s : List UInt8) : tryFromHex n s = tryFromHexSl
   · have : s.length ≠ 2 * n := by omega
     simp [h, tryFromHexSlice, this]
 
+/-- parsing the text of a non-zero `n`-byte id gives the id back -/
+theorem tryFromHexSlice_toHex (n v : Nat) (h0 : v ≠ 0) (hlt : v < 256 ^ n) :
+    tryFromHexSlice n (toHex n v) = some v := by
+  unfold tryFromHexSlice
+  simp only [toHex_length, ne_eq, not_true_eq_false, ↓reduceIte]
+  simp only [toHex, decodePairs_encodeBytes, fromBeBytes_toBeBytes, Nat.mod_eq_of_lt hlt, h0, ↓reduceIte]
+
 end EmitModel.HexId
